@@ -36,7 +36,7 @@ int nondet_int(void);
  * Frame trick for the scale factors (DESIGN.md C05): R resp. C is a NULL pointer in the variants in which the documentation says the
  * array is not accessed for this trans; in the other variants it is NULL or the real array, and the contract requires it to be
  * readable exactly when equed says the scaling was applied - a read of the wrong array fails a pointer check. */
-void h_dgsrfs_b(void)
+static void h_common(void)
 {
     trans_t trans;
     SuperMatrix A, L, U, B, X;
@@ -97,3 +97,8 @@ void h_dgsrfs_b(void)
 #endif
     dgsrfs(trans, &A, &L, &U, perm_c, perm_r, equed, R, C, &B, &X, ferr, berr, &stat, &info);
 }
+
+void h_dgsrfs_b(void) { h_common(); }
+
+/* entry point of unit dgsrfs_bz (zero-mode variants, same harness) */
+void h_dgsrfs_bz(void) { h_common(); }
